@@ -423,6 +423,8 @@ def run_val(cx, derived=True):
     if derived:
         derived_types(run)
     f51_witness(run)
+    from checks import valdt
+    valdt.run_dt(run)
     return run
 
 
